@@ -7,5 +7,8 @@ CONSTANTS
   SharedCounter = TRUE
   PreferCtxErr = TRUE
   FlushOnCtxErr = TRUE
+  WaitErrChecksDone = TRUE
+  Outcomes = {"zero", "nonzero", "signal", "waitfail"}
+  PrintKinds = {"pr_direct", "pr_buffered", "pr_file", "pr_cmd"}
 CONSTRAINT NotCancelled
 CHECK_DEADLOCK FALSE
